@@ -1418,3 +1418,8 @@ print('status', status.name, ': progress reporter says', exit_value.exit_identif
       '; junit failures+errors =', counted, '; children of testcase:', child)
 sys.exit(1 if (counted is None or progress_ok != (counted == 0) or (counted == 1) != (len(child) == 1)) else 0)
 '''
+
+
+# Assumed summaries of this module that follow from contracts PROVED for another property (Module.implied_by, ENGINE.md):
+# the refinement obligations are generated by this property's check and the proved contract is re-proved here.
+M.implied_by('exactly_lib.test_suite.file_reading.suite_file_reading:resolve_test_case_handling_setup', 'C17')
